@@ -353,7 +353,7 @@ class SparseDisk:
                 grain_remaining = self.header.grain_size - run_offset
                 read_count = min(run_count, grain_remaining)
 
-                buf = self._read_compressed_grain(run_type)
+                buf = self._read_compressed_grain(run_type, offset + read_count * SECTOR_SIZE)
                 sectors_read.append(buf[offset : offset + read_count * SECTOR_SIZE])
 
                 # If we loop, we're going to the next run, which means we'll start at offset 0
@@ -363,7 +363,7 @@ class SparseDisk:
 
         return b"".join(sectors_read)
 
-    def _read_compressed_grain(self, sector: int) -> bytes:
+    def _read_compressed_grain(self, sector: int, size: int | None = None) -> bytes:
         self.fh.seek(sector * SECTOR_SIZE)
         buf = self.fh.read(SECTOR_SIZE)
 
@@ -382,9 +382,12 @@ class SparseDisk:
             buf += self.fh.read(remaining_len)
 
         # A grain never inflates to more than the grain size, don't let a crafted stream allocate more than that
-        return zlib.decompressobj().decompress(
-            buf[header_len : header_len + compressed_len], self.header.grain_size * SECTOR_SIZE
-        )
+        # The grain size itself comes from the file, so also don't inflate more than the caller is going to use
+        max_length = self.header.grain_size * SECTOR_SIZE
+        if size is not None:
+            max_length = min(max_length, size)
+
+        return zlib.decompressobj().decompress(buf[header_len : header_len + compressed_len], max_length)
 
 
 class SparseExtentHeader:
